@@ -398,7 +398,22 @@ impl Model for M {
                         })
                         .max_by_key(|c| s.ranges[*c].prefix_len);
                     if let Some(claim) = claim {
-                        if !s.decisions.iter().any(|d| d.addr == *a && d.peer == p && d.at + SWITCH_TO >= s.now) {
+                        // Is p what a fresh computation yields right now (a most specific strictly live claim)? Then the table may
+                        // just have computed it anew (its earlier entry can have ended with the claim's previous life): the
+                        // decision's lifetime starts now. Otherwise it can only be an earlier decision, which keeps its start.
+                        let best_strict = (0..3)
+                            .flat_map(|q| (0..s.ranges.len()).map(move |c| (q, c)))
+                            .filter(|(q, c)| {
+                                let r = &s.ranges[*c];
+                                ref_matches(&r.base.data[..r.base.len as usize], r.prefix_len, &addr.data[..addr.len as usize]) && self.live_strict(s, *q, *c)
+                            })
+                            .map(|(_, c)| s.ranges[c].prefix_len)
+                            .max();
+                        let fresh = self.live_strict(s, p, claim) && Some(s.ranges[claim].prefix_len) == best_strict;
+                        if fresh {
+                            s.decisions.retain(|d| !(d.addr == *a && d.peer == p && d.claim != LEARNED));
+                            s.decisions.push(Decision { addr: *a, peer: p, claim, at: s.now });
+                        } else if !s.decisions.iter().any(|d| d.addr == *a && d.peer == p && d.at + SWITCH_TO >= s.now) {
                             s.decisions.push(Decision { addr: *a, peer: p, claim, at: s.now });
                         }
                     }
